@@ -2,8 +2,9 @@
 (* spec -> code: the schedules the driver can realise on real transports, one per `plan`, and what the      *)
 (* design spec says about each.  A plan fixes where the call is relative to the loss:                        *)
 (*   before        the call runs until it blocks (or ends), then the loss happens                            *)
-(*   mid           the call is stopped at its last statement before the wait (MidPoint) while the connection *)
-(*                 is lost and `active` cleared, then goes on                                                 *)
+(*   mid           the call is stopped at its last statement before the wait (MidPoint; for ensure_session   *)
+(*                 at the top of its sleep loop) while the connection is lost and `active` cleared, then     *)
+(*                 goes on                                                                                    *)
 (*   at_unlink / at_pclose / at_sockclose                                                                     *)
 (*                 the shutdown is stopped before that statement, the call is made and runs until it blocks  *)
 (*                 (or ends), then the shutdown goes on                                                       *)
@@ -19,7 +20,7 @@ MidPoint(f) == CASE f = "chanreq" -> "req_clear"
                  [] f = "global" -> "gr_send"
                  [] f = "rekey" -> "rk_send"
                  [] f = "auth" -> "au_req"
-                 [] f = "srtauth" -> "es_req"
+                 [] f = "srtauth" -> "es_sleep"     \* SERVICE_REQUEST is out, the answer is not in
                  [] OTHER -> "none"
 
 Settled(w) == wpc[w] = "done" \/ (Started(w) /\ ~ENABLED WStep(w))
